@@ -149,6 +149,12 @@ func logEventR(kind int, addr string, id, a, b uint64, reason string) {
 //
 //go:norace
 func deliveredFor(addr string) (n int, disconnected bool) {
+	n, disconnected, _ = deliveredForR(addr)
+	return
+}
+
+//go:norace
+func deliveredForR(addr string) (n int, disconnected bool, reason string) {
 	for i := 0; i < nEvents; i++ {
 		if events[i].addr != addr {
 			continue
@@ -157,6 +163,9 @@ func deliveredFor(addr string) (n int, disconnected bool) {
 		case evDelivered:
 			n++
 		case evDisconnect, evConnectFail:
+			if !disconnected {
+				reason = events[i].reason
+			}
 			disconnected = true
 		}
 	}
@@ -260,13 +269,15 @@ const (
 	psTrailing  // known id, body followed by extra bytes inside the frame
 	psHalfFrame // half a frame, then EOF
 	psGoodAfter // one more well-formed message (after a bad frame it must not be delivered)
+	psCleanClose
 )
 
 type peerStep struct {
 	kind int
 	n    int
-	cuts []int // psStream: relative cut positions in per-mille of the byte string
+	cuts []int // psStream: relative cut positions in per-mille of the byte string (or, with boundary set, frame*16 + offset+3)
 	pad  []int // psStream: padding length per message
+	boundary bool
 }
 
 type connPlan struct {
@@ -309,8 +320,9 @@ func genFraming(c *sim.Ctx) *scenario {
 	cfg.ReadTimeout = 0
 	cfg.WriteTimeout = 0
 	cfg.MaxOutgoingMessageLength = 4096
-	cfg.MaxIncomingMessageLength = 4096
+	cfg.MaxIncomingMessageLength = []int{4096, 65536}[t.Pick("f-maxin", 2, 1)]
 	sc.cfg = cfg
+	big := cfg.MaxIncomingMessageLength > 4096
 	// one observer that never changes anything
 	sc.callers = [][]op{{{kind: opSize}, {kind: opGetConns}, {kind: opDrain}}}
 	nIn := t.Range("f-conns", 1, 2)
@@ -321,9 +333,18 @@ func genFraming(c *sim.Ctx) *scenario {
 		for j := 0; j < n; j++ {
 			st := peerStep{kind: psStream, n: t.Range("f-burst", 1, 8)}
 			for k := 0; k < st.n; k++ {
-				st.pad = append(st.pad, []int{0, 3, 40, 300, 1200}[t.Pick("f-pad", 3, 2, 3, 2, 1)])
+				pad := []int{0, 3, 40, 300, 1200}[t.Pick("f-pad", 3, 2, 3, 2, 1)]
+				if big && t.Chance("f-bigpad", 1, 6) {
+					pad = 17000 + t.Int("f-bigpad-len", 40000) // larger than any buffer-size threshold a few KiB wide
+				}
+				st.pad = append(st.pad, pad)
 			}
-			switch t.Pick("f-cutstyle", 2, 3, 2, 1) {
+			switch t.Pick("f-cutstyle", 2, 3, 2, 1, 3) {
+			case 4: // cuts placed relative to frame boundaries: a few bytes before / into the next frame's length prefix and id
+				st.boundary = true
+				for k := 0; k < 1+t.Int("f-nbcuts", 4); k++ {
+					st.cuts = append(st.cuts, t.Int("f-bcut-frame", 8)*16+t.Int("f-bcut-off", 12)) // frame index * 16 + (offset+3)
+				}
 			case 1: // a few random cuts
 				for k := 0; k < 1+t.Int("f-ncuts", 5); k++ {
 					st.cuts = append(st.cuts, 1+t.Int("f-cut", 999))
@@ -338,7 +359,9 @@ func genFraming(c *sim.Ctx) *scenario {
 			}
 			p.script = append(p.script, st)
 		}
-		switch t.Pick("f-tail-kind", 6, 1, 1, 1, 1, 1, 1, 1) {
+		switch t.Pick("f-tail-kind", 6, 1, 1, 1, 1, 1, 1, 1, 3) {
+		case 8: // the peer has said everything and hangs up: everything it sent must still be delivered
+			p.script = append(p.script, peerStep{kind: psCleanClose})
 		case 1:
 			p.script = append(p.script, peerStep{kind: psGarbage}, peerStep{kind: psGoodAfter})
 		case 2:
@@ -458,6 +481,7 @@ type world struct {
 type peerState struct {
 	goodSent int    // well-formed messages written before any malformed frame (framing profile)
 	bad      string // disconnect reason the first malformed frame must produce ("" = none sent)
+	cleanClose bool // the peer closed after its last well-formed message
 	conn     *simConn
 	sent     uint32
 	rx       []byte
@@ -553,8 +577,31 @@ func (w *world) runPeer(p *peerState, script []peerStep) {
 			}
 			p.goodSent = int(p.sent)
 			last := 0
-			for _, pm := range st.cuts {
+			cuts := st.cuts
+			if st.boundary {
+				// absolute positions around the ends of the frames of this burst
+				var ends []int
+				pos := 0
+				for i := 0; i < st.n; i++ {
+					pos += 8 + 13 + st.pad[i%len(st.pad)]
+					ends = append(ends, pos)
+				}
+				var abs []int
+				for _, cdesc := range st.cuts {
+					e := ends[(cdesc/16)%len(ends)]
+					abs = append(abs, e+cdesc%16-3)
+				}
+				sort.Ints(abs)
+				cuts = nil
+				for _, a := range abs {
+					cuts = append(cuts, -a) // negative: absolute
+				}
+			}
+			for _, pm := range cuts {
 				at := len(b) * pm / 1000
+				if pm < 0 {
+					at = -pm
+				}
 				if at <= last || at >= len(b) {
 					continue
 				}
@@ -569,7 +616,7 @@ func (w *world) runPeer(p *peerState, script []peerStep) {
 			c.peerWrite([]byte{byte(st.n % 4), 0, 0, 0, 'S', 'I', 'M', 'M', 0})
 		case psBadLenBig:
 			p.bad = "Invalid message length"
-			v := []uint32{4097, 0xFFFFFFFC, 0xFFFFFFFF, 0x7FFFFFFF, 0x80000000, 1 << 20}[st.n%6]
+			v := []uint32{uint32(w.sc.cfg.MaxIncomingMessageLength) + 1, 0xFFFFFFFC, 0xFFFFFFFF, 0x7FFFFFFF, 0x80000000, 1 << 20}[st.n%6]
 			h := make([]byte, 4)
 			binary.LittleEndian.PutUint32(h, v)
 			c.peerWrite(append(h, 'S', 'I', 'M', 'M', 1, 2, 3, 4, 5))
@@ -594,6 +641,11 @@ func (w *world) runPeer(p *peerState, script []peerStep) {
 			return
 		case psGoodAfter:
 			c.peerWrite(frame(&SimMsg{From: from, Seq: p.sent + 1}))
+		case psCleanClose:
+			p.cleanClose = true
+			c.peerClose(false)
+			bump(&peerCloses)
+			return
 		case psClose:
 			p.absorb(c.peerRead())
 			c.peerClose(false)
@@ -1339,11 +1391,16 @@ func (w *world) framingSettled() bool {
 		if !p.done {
 			return false
 		}
-		n, gone := deliveredFor(string(p.conn.remote))
+		n, gone, reason := deliveredForR(string(p.conn.remote))
 		if gone {
+			// after a clean close everything already received is still handed to the handler: wait for it
+			// (unless the receive queue overflowed, which drops messages by design)
+			if p.cleanClose && n < p.goodSent && !strings.Contains(reason, "msgChan is closed or full") {
+				return false
+			}
 			continue
 		}
-		if p.bad != "" || n < p.goodSent {
+		if p.bad != "" || p.cleanClose || n < p.goodSent {
 			return false
 		}
 	}
@@ -1353,9 +1410,15 @@ func (w *world) framingSettled() bool {
 //go:norace
 func (w *world) framingStuck() string {
 	for _, p := range w.peers {
-		n, gone := deliveredFor(string(p.conn.remote))
+		n, gone, reason := deliveredForR(string(p.conn.remote))
+		if gone && p.cleanClose && p.done && n < p.goodSent && !strings.Contains(reason, "msgChan is closed or full") {
+			return fmt.Sprintf("messages-lost-at-close|connection %s: the peer sent %d well-formed messages and closed; %d were delivered (disconnect reason %q)", p.conn.remote, p.goodSent, n, reason)
+		}
 		if gone || !p.done {
 			continue
+		}
+		if p.cleanClose {
+			return fmt.Sprintf("no-disconnect-after-close|connection %s: the peer closed, the pool still holds the connection", p.conn.remote)
 		}
 		if n < p.goodSent {
 			return fmt.Sprintf("messages-not-delivered|connection %s: %d of %d well-formed messages delivered and the connection is still up", p.conn.remote, n, p.goodSent)
@@ -1418,6 +1481,15 @@ func (w *world) framingChecks() {
 				return
 			}
 			c.Count("probe.bad_frame_disconnected")
+		case p.cleanClose:
+			if strings.Contains(reason, "msgChan is closed or full") {
+				c.Count("probe.receive_queue_overflow")
+			} else if len(seqs) != p.goodSent {
+				c.Violate("delivery-sequence", "lost-at-close", "connection %s: the peer sent %d well-formed messages and then closed; only %d were delivered (disconnect reason %q)", addr, p.goodSent, len(seqs), reason)
+				return
+			} else {
+				c.Count("probe.stream_fully_delivered_before_close")
+			}
 		case disconnected:
 			// a peer that only sent well-formed messages and did not leave
 			if strings.Contains(reason, "msgChan is closed or full") {
